@@ -1486,7 +1486,7 @@ class FunctionNormalizer(object):
                         continue
                     # a value that can raise must be needed right away (so that it raises at the same point, under the same
                     # conditions, as the assignment did)
-                    if may_raise(value) and not self._guaranteed_use(rest, name):
+                    if self._sensitive(value) and not self._guaranteed_use(rest, name):
                         continue
                     # a use inside a nested def / lambda is evaluated later: only allowed when reads are never re-bound at all
                     if any(_inside_deferred(fn, u, comps=False) for u in uses):
@@ -1601,6 +1601,81 @@ class FunctionNormalizer(object):
             if not ok:
                 return False
         return True
+
+    def _tested(self):
+        '''dumps of the expressions the function tests for absence / emptiness / type: `if E`, `E is None`, `K in E`,
+        isinstance(E, ..), hasattr(E, ..), len(E) -- the function itself says these may be None, empty or of another type'''
+        out = set()
+
+        def truth(e):
+            if isinstance(e, ast.BoolOp):
+                for v in e.values:
+                    truth(v)
+            elif isinstance(e, ast.UnaryOp) and isinstance(e.op, ast.Not):
+                truth(e.operand)
+            elif isinstance(e, ast.Compare):
+                operands = [e.left] + list(e.comparators)
+                for op, (l, r) in zip(e.ops, zip(operands, operands[1:])):
+                    if isinstance(op, (ast.Is, ast.IsNot, ast.Eq, ast.NotEq)) and isinstance(r, ast.Constant) and r.value is None:
+                        out.add(dump(l))
+                    if isinstance(op, (ast.Is, ast.IsNot, ast.Eq, ast.NotEq)) and isinstance(l, ast.Constant) and l.value is None:
+                        out.add(dump(r))
+                    if isinstance(op, (ast.In, ast.NotIn)):
+                        out.add(dump(r))
+                        if isinstance(l, ast.Constant) and l.value is None and isinstance(r, (ast.List, ast.Tuple)):
+                            for x in r.elts:
+                                out.add(dump(x))
+                for x in operands:
+                    if isinstance(x, ast.Call) and isinstance(x.func, ast.Name) and x.func.id == 'len' and x.args:
+                        out.add(dump(x.args[0]))
+            elif isinstance(e, ast.Call) and isinstance(e.func, ast.Name) and e.func.id in ('isinstance', 'hasattr', 'callable', 'len', 'bool') and e.args:
+                out.add(dump(e.args[0]))
+            elif isinstance(e, (ast.Name, ast.Attribute, ast.Subscript, ast.Call)):
+                out.add(dump(e))
+        for n in ast.walk(self.fn):
+            if isinstance(n, (ast.If, ast.While, ast.IfExp, ast.Assert)):
+                truth(n.test)
+            elif isinstance(n, ast.BoolOp):
+                truth(n)
+            elif isinstance(n, ast.UnaryOp) and isinstance(n.op, ast.Not):
+                truth(n.operand)
+            elif isinstance(n, ast.comprehension):
+                for c in n.ifs:
+                    truth(c)
+            elif isinstance(n, ast.Call) and isinstance(n.func, ast.Name) and n.func.id in ('isinstance', 'hasattr'):
+                truth(n)
+            elif isinstance(n, ast.Compare):
+                truth(n)
+            elif isinstance(n, ast.Try):
+                # code under try: the author expects failures there
+                for x in n.body:
+                    for y in ast.walk(x):
+                        if isinstance(y, (ast.Name,)):
+                            out.add(dump(y))
+        return {x.replace('Store()', 'Load()') for x in out}
+
+    def _sensitive(self, value):
+        '''can moving the evaluation of value across a branch change whether / when it raises?  Only when it dereferences,
+        calls with, or computes from something the function itself tests for absence, emptiness or type.'''
+        if not may_raise(value):
+            return False
+        tested = self._tested()
+        for n in _walk_no_lambda(value):
+            if isinstance(n, (ast.Attribute, ast.Subscript)) and dump(n.value) in tested:
+                return True
+            if isinstance(n, ast.Subscript) and dump(n) in tested:
+                return True
+            if isinstance(n, ast.Call):
+                for a in list(n.args) + [k.value for k in n.keywords]:
+                    if dump(a) in tested:
+                        return True
+                if dump(n.func) in tested:
+                    return True
+            if isinstance(n, ast.BinOp) and (dump(n.left) in tested or dump(n.right) in tested):
+                return True
+            if isinstance(n, ast.Starred) and dump(n.value) in tested:
+                return True
+        return False
 
     def _guaranteed_use(self, rest, name):
         '''the first statement after the definition that is not itself a harmless temporary evaluates `name`
